@@ -182,7 +182,7 @@ def model_sessions(out, tier):
         beh = json.loads(json.loads(ln[start:ln.rstrip().rfind(">>")]))
         t1 = T1_TEXTS[(i // stride) % len(T1_TEXTS)]
         ops = [{"op": "create", "tk": 0, "mode": 2 if i % 2 else -1, "fields": "all", "projection": "surface"},
-               {"op": "create", "tk": 1, "mode": 0, "fields": "all", "projection": "surface"}]
+               {"op": "create", "tk": 1, "mode": 0, "fields": ["surface"], "projection": "surface"}]
         for o in beh["ops"]:
             o = dict(o)
             o.pop("res", None)
